@@ -272,4 +272,30 @@ theorem quoted_paragraph_is_prefixed_greedy_maxwrap (cfg : Cfg) (d : Deco) (w w'
     intro l _
     exact rlineChars_prefixLine [] d.quotePrefix l
 
+open H2T.Spec H2T.C04 in
+/-- **a quoted paragraph with inline markup, under any `max_wrap_width`**: the quote mark in front of the greedy lines of the
+    paragraph's flat text at the effective width `wrapEff cfg w'` = `min m (w − prefix)` -/
+theorem quoted_inline_paragraph_is_prefixed_greedy (cfg : Cfg) (d : Deco) (w w' : Nat) (kids : List RNode) (hfn : cfg.footnotes = false)
+    (hw : w ≠ 0) (hpad : cfg.padBlocks = false) (hov : cfg.overflow = false)
+    (hw' : SubR.widthMinus { width := w } cfg (dispW d.quotePrefix)
+      ((sizeOf d cfg.minWrap (.box {} .quote [.box {} .block kids])).minW - dispW d.quotePrefix) = .ok w') (hw'0 : 1 ≤ w')
+    (hm : 1 ≤ wrapEff cfg w') (hin : inlineNodes kids = true) (hpos : ∀ wd ∈ words (inlFlats d kids), 0 < lwc wd) :
+    (renderTree cfg d w (.box {} .quote [.box {} .block kids])).map (fun ls => ls.map rlineChars) =
+      (greedy (wrapEff cfg w') (words (inlFlats d kids))).map (fun ls => ls.map (d.quotePrefix ++ ·)) := by
+  rw [quote_is_prefixed_content cfg d w w' _ hfn hw hw' (by omega)]
+  have hcont : renderTree cfg d w' (.box {} .container [.box {} .block kids]) = renderTree cfg d w' (.box {} .block kids) := by
+    unfold renderTree
+    simp only [compile_container, compileList, List.append_nil]
+  rw [hcont]
+  have hg := inline_markup_paragraph_is_greedy_eff cfg d w' hw'0 hfn hm hpad hov kids hin hpos
+  rw [← hg]
+  cases hr : renderTree cfg d w' (.box {} .block kids) with
+  | error e => rfl
+  | ok ls =>
+    simp only [Except.map, zipPrefix_same, List.map_map]
+    congr 1
+    apply List.map_congr_left
+    intro l _
+    exact rlineChars_prefixLine [] d.quotePrefix l
+
 end H2T.C07
